@@ -142,6 +142,12 @@ def goal_parts(g, depth=0):
     to the conjunction of the parts"""
     if z3.is_and(g):
         return [p for ch in g.children() for p in goal_parts(ch, depth)]
+    if z3.is_eq(g) and g.num_args() == 2 and z3.is_bool(g.arg(0)):
+        a, b = g.children()
+        if z3.is_true(a):
+            return goal_parts(b, depth)
+        if z3.is_true(b):
+            return goal_parts(a, depth)
     if z3.is_quantifier(g) and g.is_forall() and depth < 2:
         vs = [z3.FreshConst(g.var_sort(i), "sk") for i in range(g.num_vars())]
         inst = z3.substitute_vars(g.body(), *reversed(vs))
